@@ -24,13 +24,36 @@ namespace CaddyModel.C02
 def admM0 : Addr := ⟨false, 10⟩
 def admM1 : Addr := ⟨true, 10⟩
 
+/-- v0: network unixpacket at the PATH OF u0 — unix network kinds share the file namespace, but the
+    listener bookkeeping keys a socket by network + path -/
+def pktV0 : Addr := ⟨true, 20⟩
+def unixU0 : Addr := ⟨true, 0⟩
+
+/-- the address of the other network kind at the same path -/
+def sibling (a : Addr) : Option Addr :=
+  if a == unixU0 then some pktV0 else if a == pktV0 then some unixU0 else none
+
+/-- `unixSocketPathInUse` (listen_unix.go): a listener of ours of another unix network kind is open at
+    this path. `reuseUnixSocket` then refuses to unlink and bind ("socket file … is in use by …"): the
+    HTTP app's Start fails, closes what it had bound (abortStart) and the load is rejected. -/
+def pathBusy (s : State) (a : Addr) : Bool :=
+  match sibling a with
+  | some b => (s.socks b).umap.isSome
+  | none => false
+
+/-- the socket file at the path of `a` exists (shared by the network kinds) -/
+def pathFile (s : State) (a : Addr) : Bool :=
+  (s.socks a).file || (match sibling a with
+                       | some b => (s.socks b).file
+                       | none => false)
+
 /-- the two sockets of the port range r0 -/
 def rngP0 : Addr := ⟨false, 3⟩
 def rngP1 : Addr := ⟨false, 4⟩
 
 /-- protocol order: t0 t1 t2 m0 p0 p1 u0 u1 m1 (m0, m1: the admin endpoint's addresses; p0, p1: two
     consecutive ports, one address spec `r0` when a server lists them next to each other) -/
-def addrUniverse : List Addr := [⟨false, 0⟩, ⟨false, 1⟩, ⟨false, 2⟩, admM0, rngP0, rngP1, ⟨true, 0⟩, ⟨true, 1⟩, admM1]
+def addrUniverse : List Addr := [⟨false, 0⟩, ⟨false, 1⟩, ⟨false, 2⟩, admM0, rngP0, rngP1, ⟨true, 0⟩, ⟨true, 1⟩, admM1, pktV0]
 
 def isAdminAddr (a : Addr) : Bool := a.id == 10
 
@@ -45,6 +68,7 @@ def addrOfName : String → Option Addr
   | "u1" => some ⟨true, 1⟩
   | "p0" => some rngP0
   | "p1" => some rngP1
+  | "v0" => some pktV0
   | _ => none
 
 def adminOfName : String → Option Addr
@@ -54,12 +78,13 @@ def adminOfName : String → Option Addr
 
 def addrName (a : Addr) : String :=
   if isAdminAddr a then (if a.unix then "m1" else "m0")
+  else if a == pktV0 then "v0"
   else if a.unix then "u" ++ toString a.id
   else if a.id ≥ 3 then "p" ++ toString (a.id - 3)
   else "t" ++ toString a.id
 
 /-- position in the protocol order (admin addresses are never bound by the HTTP app) -/
-def addrIdx (a : Addr) : Nat := if a.unix then 6 + a.id else if a.id ≥ 3 then a.id + 1 else a.id
+def addrIdx (a : Addr) : Nat := if a == pktV0 then 9 else if a.unix then 6 + a.id else if a.id ≥ 3 then a.id + 1 else a.id
 
 def digitCh (n : Nat) : Char := if n > 9 then '+' else Char.ofNat (48 + n)
 
@@ -69,7 +94,10 @@ def sockStr (a : Addr) (k : Sock) : String :=
   if a.unix then String.ofList [digitCh k.pool, digitCh k.ucnt, if k.file then '1' else '0']
   else String.ofList [digitCh k.pool]
 
-def snapStr (s : State) : String := String.join (addrUniverse.map fun a => sockStr a (sockOf s a))
+/-- the file character of u0 / v0 is the file at their common path -/
+def snapStr (s : State) : String :=
+  String.join (addrUniverse.map fun a =>
+    if (sibling a).isSome then sockStr a { s.socks a with file := pathFile s a } else sockStr a (sockOf s a))
 
 /-! ### scenario -/
 
@@ -78,7 +106,22 @@ structure CfgSpec where
   fail : Bool
   addrs : List Addr
   admin : Option Addr
+  busy : Bool := false   -- derived (markBusy): binds a unix socket path a listener of another kind holds
 deriving Repr
+
+/-- a config is refused when it lists u0 and v0 together, or one of them while the running config holds
+    the other -/
+def markBusy (curr : Option CfgSpec) : List CfgSpec → List CfgSpec
+  | [] => []
+  | c :: rest =>
+    if c.same then c :: markBusy curr rest else
+    let other (a : Addr) : Bool := match curr with
+      | some o => o.addrs.contains a
+      | none => false
+    let b := (c.addrs.contains unixU0 && c.addrs.contains pktV0) || (c.addrs.contains unixU0 && other pktV0)
+              || (c.addrs.contains pktV0 && other unixU0)
+    let c' := { c with busy := b }
+    c' :: markBusy (if !c.fail && !b then some c' else curr) rest
 
 structure TokSpec where
   load : Nat
@@ -97,15 +140,15 @@ def parseSrv (s : String) : Option (List Addr) :=
   ((s.splitOn ",").mapM fun n => if n == "r0" then some [rngP0, rngP1] else (addrOfName n).map fun a => [a]).map List.flatten
 
 def parseBody (fail : Bool) (body : String) (admin : Option Addr) : Option CfgSpec :=
-  if body == "-" then some ⟨false, fail, [], admin⟩ else
+  if body == "-" then some ⟨false, fail, [], admin, false⟩ else
   match (body.splitOn "+").mapM parseSrv with
   | some srvs =>
     let as := srvs.flatten
-    if as.Nodup then some ⟨false, fail, as, admin⟩ else none
+    if as.Nodup then some ⟨false, fail, as, admin, false⟩ else none
   | none => none
 
 def parseCfg (s : String) : Option CfgSpec :=
-  if s == "=" then some ⟨true, false, [], none⟩ else
+  if s == "=" then some ⟨true, false, [], none, false⟩ else
   let fail := s.startsWith "!"
   let rest := if fail then (s.drop 1).toString else s
   match rest.splitOn "@" with
@@ -122,13 +165,13 @@ def runningBefore (cfgs : List CfgSpec) : Nat → Option Nat
   | 0 => none
   | k + 1 =>
     match cfgs[k]? with
-    | some c => if !c.same && !c.fail then some k else runningBefore cfgs k
+    | some c => if !c.same && !c.fail && !c.busy then some k else runningBefore cfgs k
     | none => runningBefore cfgs k
 
 def allowedRel (cfgs : List CfgSpec) (k : Nat) : List Char :=
   if k == cfgs.length then ['t', 'r', 'd'] else
   match cfgs[k]? with
-  | some c => if c.same then [] else if c.fail then ['p', 's', 'r', 'd'] else ['p', 's', 't', 'r', 'd']
+  | some c => if c.same then [] else if c.busy then ['p', 'r', 'd'] else if c.fail then ['p', 's', 'r', 'd'] else ['p', 's', 't', 'r', 'd']
   | none => []
 
 def parseTok (cfgs : List CfgSpec) (s : String) : Option TokSpec :=
@@ -162,7 +205,7 @@ def parseGrace (f : String) : Option (Nat × Bool) :=
   | _ => none
 
 def parseScenario (grace napps cfgs toks : String) : Option Scenario :=
-  match parseGrace grace, canonNat napps, (cfgs.splitOn ";").mapM parseCfg with
+  match parseGrace grace, canonNat napps, ((cfgs.splitOn ";").mapM parseCfg).map (markBusy none) with
   | some (g, dl), some na, some cs =>
     if g > 60000 || na > 2 || cs.isEmpty || cs.length > 400 then none else
     match cs.head? with
@@ -247,6 +290,13 @@ def settleAdmin (s : State) : Option State := run s (s.admRetired.map fun p => .
     for parsed scenarios; printed as `model-stuck`) ; the Bool says "stop here" (stale) -/
 def loadBlock (dl : Bool) (s : State) (k : Nat) (c : CfgSpec) : Option (State × String × Bool) :=
   if c.same then some (s, block "same" s [] [], false) else
+  if c.busy then
+    -- Listen refuses the socket path: Start fails, what was bound is closed again, the load is rejected
+    -- (which listeners were bound before the refused one is Go's map order: not part of the block)
+    match (run s [.begin ⟨k, c.addrs⟩, .adminReplace k c.admin, .reject, .ret]).bind settleAdmin with
+    | some s' => some (s', block "busy" s' [] [], false)
+    | none => none
+  else
   match run s [.begin ⟨k, c.addrs⟩, .adminReplace k c.admin] with
   | none => none
   | some s1 =>
@@ -339,10 +389,16 @@ def answerOk (s : State) (a : Addr) (ch : Char) : Bool :=
   let gs := (sockOf s a).gens
   let closedOk : Bool :=
     if !a.unix then ch == 'r'
-    else if !(sockOf s a).file then ch == 'n'
+    else if !pathFile s a then ch == 'n'
     else ch == 'r' || ch == 'o'
+  -- the file at the path belongs to a listener of the other network kind that is being closed: it may
+  -- be gone by the time of the connect
+  let sibClosing : Bool :=
+    match sibling a with
+    | some b => !(s.socks b).gens.isEmpty && (s.socks b).gens.all (closingGen s b)
+    | none => false
   if ch == '-' then true
-  else if gs.isEmpty then closedOk
+  else if gs.isEmpty then closedOk || (sibClosing && ch == 'n')
   else if gs.any (fun g => genCh g == ch) then true
   else if !a.unix && ch == 's' && gs.any (closingGen s a) then true
   else if gs.all (closingGen s a) then
@@ -432,11 +488,19 @@ def validateEvent (sc : Scenario) (s : State) (ev : String) : Verdict :=
       | none => .bad "parse"
     | ["W", _], [] => stepV s .swap "swap"
     | ["J", _], [] => stepV s .reject "reject"
-    | ["Z", _], [] => .bad "http-app-start-failed"   -- a config that should have been accepted was rejected
+    | ["Z", ks], [] =>
+      -- the HTTP app's Start failed: only when a listed socket path is held under another network kind
+      match ks.toNat?.bind (fun k => sc.cfgs[k]?) with
+      | some c =>
+        if c.addrs.any (fun a => !s.holds a (nextGen s) && pathBusy s a) ||
+           (c.addrs.contains unixU0 && c.addrs.contains pktV0) then stepV s .reject "reject"
+        else .bad "http-app-start-failed"
+      | none => .bad "parse"
     | ["B", gs, an], [snap] =>
       match gs.toNat?, addrOfName an with
       | some g, some a =>
         if genOf s.next != some g then .bad "bind-by-non-loading-config" else
+        if pathBusy s a then .bad "bind-over-a-socket-path-held-under-another-network-kind" else
         match step? s (.bind a) with
         | some s' => if parseSnapOk s' snap then .ok s' else .bad ("snapshot-after-bind model=" ++ snapStr s')
         | none => .bad "not-enabled:bind"
